@@ -99,6 +99,7 @@ func runDBCase(c *Ctx, dc dbCase, tape *simrt.Tape, mode string) dbsimOutcome {
 	defer os.RemoveAll(dir)
 	r := newDBRunner(c.T, dir, tape, dc.Keys)
 	defer simrt.Deactivate()
+	defer r.w.ReleaseAll()
 	var out dbsimOutcome
 	model := map[string]string{}
 	add := func(sig, detail string) {
@@ -290,10 +291,16 @@ func reportDB(c *Ctx, harness string, dc dbCase, tape *simrt.Tape, seed int64, v
 	}
 	cur := ct{dc, append([]int{}, tape.Rec...)}
 	known := c.matchKnown(c.Property, v.sig) != ""
-	budget := 60 * time.Second
-	if known || c.seenSig[c.Property+"|"+v.sig] > 0 {
-		budget = 0
+	budget := 25 * time.Second
+	if c.Thorough() {
+		budget = 60 * time.Second
 	}
+	if known || c.seenSig[c.Property+"|"+v.sig] > 0 || c.minimised >= 2 || c.seenClass[sigClass(v.sig)] > 0 {
+		budget = 0
+	} else {
+		c.minimised++
+	}
+	c.seenClass[sigClass(v.sig)]++
 	deadline := time.Now().Add(budget)
 	cands := func(x ct) []ct {
 		var out []ct
